@@ -5,7 +5,7 @@ import os
 VERIF = os.path.dirname(os.path.dirname(os.path.abspath(__file__)))
 
 CLAIMED = {
- "C01": ("TLC generates Jobs_k(D) from spec/JobDef.tla for the corpus, every member of fragment F up to the tier's event bound and seeded larger members; the real learner runs on each job set; TLC validates every input job as a trace of JobDef instantiated with the emitted diagram. Exhaustive over small members of the family, sampled above; each case decided exactly by TLC.",
+ "C01": ("TLC generates Jobs_k(D) from spec/JobDef.tla for the corpus, every member of fragment F up to the tier's event bound, 552 systematic depth-3 members (nesting triples) and seeded larger members; the real learner runs on each complete job set and on every proper subset of the small job sets; TLC validates every input job as a trace of JobDef instantiated with the emitted diagram. Exhaustive over small members of the family, sampled above; each case decided exactly by TLC.",
          "JobDef.tla is the meaning of a diagram; harness lexer/parser; janus shim; TLC", "3, 4/C01",
          "TLC generation + trace validation against spec/JobDef.tla instantiated with the learned diagram"),
  "C02": ("Language inclusion Jobs_2(D') <= L(D) decided by TLC: generation mode on the learned diagram, trace mode (loops unbounded) against the source definition; reachable err (break across a join) reported in its own right.",
@@ -18,7 +18,7 @@ CLAIMED = {
          "harness lexer (line -> token); placeholder names recognised lexically", "4/C05",
          "TLC trace validation of emitted token streams against spec/PumlSyntax.tla"),
  "C09": ("spec/Store.tla (implementation-shaped model of the SQL data holder) is model-checked for UniqueExact over paged hashing and arbitrary representatives; executions of the real otel_to_pv with find_unique_graphs on exhaustive small and seeded larger forests are validated by TLC: UniqueExactP on the observed tables (shapes computed by the TLA+ operator), conformance to Store.tla.",
-         "xxh64 collisions outside the model; one root per trace", "4/C09-C15",
+         "xxh64 collisions outside the model; one root per trace; includes histories through the command line with -ug", "4/C09-C15",
          "TLC model checking of spec/Store.tla + TLC trace validation (StoreObs.tla clauses, Store.tla conformance)"),
  "C10": ("spec/Store.tla is model-checked exhaustively over all streams up to the bound (3 ids x 2 versions x parents), all batch sizes, one and two ingesting runs: UniqueEid, NoCrash, IngestExact, LinksKept; the same streams and seeded longer ones are run through the real SQLDataHolder and every logged execution is validated by TLC (conformance to Store.tla incl. the inferred flush/filter/retry steps; IngestExactP on the observed tables).",
          "sqlite through SQLAlchemy; timestamps on a minute grid", "4/C09-C15",
@@ -30,7 +30,7 @@ CLAIMED = {
          "one root per trace", "4/C09-C15",
          "TLC model checking of spec/Store.tla + TLC trace validation of logged streams"),
  "C15": ("Run histories as behaviours of spec/Store.tla (process boundary = in-memory state reset, tables kept): NoCrash, SameAnswer, UniqueExact for all histories up to the bound; histories of separate processes on one sqlite file with flags ingest/ug/save-events executed on the real code and validated by TLC (every run completes, same PV sequences, same selected shape classes).",
-         "runs are forked processes calling otel_to_pv (CLI route covered by C14)", "4/C15",
+         "most runs are forked processes calling otel_to_pv; a small family of histories goes through python -m tel2puml otel2pv [-ni] [-ug] -se", "4/C15",
          "TLC model checking of run histories on spec/Store.tla + TLC validation of logged multi-process histories"),
  "C08": ("spec/Sequencer.tla states the documented sequencing rules twice (closed form and stack machine; TLC checks they agree and the structural invariants on all small trees); TLC enumerates all span trees up to the bound x modes x maps, the real sequencer runs on each, and TLC compares observed links with Expected and evaluates the invariants; seeded larger trees likewise.",
          "documented rules as read in Sequencer.tla; touching windows and rename-of-renamed kept out of inputs", "4/C08",
@@ -44,7 +44,7 @@ CLAIMED = {
  "C06": ("spec/Gates.tla enumerates every gate tree up to the bound and its outcome family Out(tree); the real calculate_logic_gates runs on each family; TLC evaluates Out(tree) <= Out(inferred) for all and equality on the exactness sub-class.",
          "TLC as oracle of the denotation; pm4py tree -> literal projection", "4/C06",
          "TLC enumeration of gate trees + TLC evaluation of spec/Gates.tla denotations"),
- "C07": ("spec/LoopNest.tla: contract of loop extraction and the four invariants (acyclic, single entry, partition, cycles inside); the nesting returned by the real detect_loops for every F/corpus case with loops is validated by TLC.",
+ "C07": ("spec/LoopExtract.tla: abstract extraction machine model-checked on every rooted digraph with 3 nodes (termination, the four invariants); spec/LoopNest.tla: the invariants (acyclic, single entry, partition, cycles inside, well-formed bodies) evaluated by TLC on the nesting returned by the real detect_loops for every F/corpus case with loops.",
          "graph projection (nodes, edges, sub graphs)", "4/C07",
          "TLC validation of observed loop nestings against spec/LoopNest.tla"),
  "C13": ("spec/FieldMap.tla: documented meaning of a field mapping applied to a JSON document; TLC computes the expected records for enumerated small and seeded larger documents x mappings; the real JSONDataSource must yield exactly those, in whole-file and per-line modes.",
